@@ -21,7 +21,7 @@ var c14Docs = []string{
 	`{"a":1,"b":[1,2,3]}`, `{"a":2,"b":[1,3,2]}`, `[1,2,2,3]`, `[3,2,1]`, `[{"id":1,"v":1},{"id":2,"v":2}]`, `[{"id":2,"v":2},{"id":1,"v":3}]`,
 	`1`, `1.05`, `{"a":{"b":{"c":{"x":1,"y":2,"z":[1,2,3]}}}}`, `{"a":{"b":{"c":{"x":3,"y":4,"z":[1]}}}}`, ``, `{"a":{"b":"x"}}`, `{"a":{"b":"y","c":[true]}}`, `"str"`, `[[1,2],[2,1]]`, `[[2,1]]`,
 }
-var c14Raw = []string{"raw:{invalid", "raw:a: [1, 2]\nb: x\n"}
+var c14Raw = []string{"raw:{invalid", "raw:a: [1, 2]\nb: x\n", "raw:msg: |\n  line one\n  line two\n", "raw:  a: 1\n  b:\n  - x\n", "raw:\n\n[1,2]\n\n"}
 
 type c14Flags struct {
 	Arrays    string // "", "-set", "-mset", "-setkeys id"
@@ -170,11 +170,13 @@ func init() {
 			}
 			return map[string]interface{}{"input_files": n, "raw_inputs": len(c14Raw), "flag_vectors": len(c14FlagSpace(tier)), "binaries": c14Bins}
 		},
-		Enum:     enumC14,
-		Run:      runC14,
-		Required: func(string) []string { return []string{"diff/exit=0", "diff/exit=1", "diff/exit=2", "patch-roundtrip", "translate", "invalid", "git-diff-driver"} },
-		Assume:   []string{"the CLI contract model is the composition of library calls described in DESIGN.md section 6 (C14) and Appendix B", "no verdict on the wording of error messages or the usage text"},
-		Budget:   budget(6*time.Minute, 45*time.Minute),
+		Enum: enumC14,
+		Run:  runC14,
+		Required: func(string) []string {
+			return []string{"diff/exit=0", "diff/exit=1", "diff/exit=2", "patch-roundtrip", "translate", "invalid", "git-diff-driver"}
+		},
+		Assume: []string{"the CLI contract model is the composition of library calls described in DESIGN.md section 6 (C14) and Appendix B", "no verdict on the wording of error messages or the usage text"},
+		Budget: budget(6*time.Minute, 45*time.Minute),
 	})
 }
 
@@ -457,6 +459,8 @@ func runC14Diff(c *engine.Case) engine.Result {
 	outFile := filepath.Join(dir, "out.diff")
 	if f.Out {
 		args = append(args, "-o", outFile)
+		// the file already exists and is longer than anything jd will write
+		os.WriteFile(outFile, []byte(strings.Repeat("stale output from an earlier run\n", 200)), 0644)
 	}
 	args = append(args, fa)
 	var stdin *string
@@ -719,6 +723,7 @@ func runC14Trans(c *engine.Case) engine.Result {
 	outFile := filepath.Join(dir, "out.txt")
 	if io == "@o" {
 		args = append(args, "-o", outFile)
+		os.WriteFile(outFile, []byte(strings.Repeat("stale output from an earlier run\n", 200)), 0644)
 	}
 	var stdin *string
 	if io == "@stdin" {
